@@ -14,6 +14,7 @@ REGISTRY = {
     "C03": ("checks.ledger_checks", "c03"),
     "C09": ("checks.ledger_checks", "c09"),
     "C11": ("checks.ledger_checks", "c11"),
+    "C07": ("checks.calls_checks", "c07"),
 }
 
 
